@@ -21,6 +21,13 @@ REG_GET = {'get': None, 'get_sp': 13, 'get_lr': 14, 'get_pc': 15}
 REG_SET = {'set': None, 'set_sp': 13, 'set_lr': 14}
 OPCODE_PKG = 'armulator.armv6.opcodes.'
 PURE_MODULES = ('armulator.armv6.bits_ops', 'armulator.armv6.shift', 'armulator.armv6.configurations')
+# the vocabulary of the rules: calls of these helpers stay calls (the rules and M2/M7 know them by name, C17 judges their
+# bodies); any OTHER function of bits_ops / shift (a helper a refactoring added) is looked through - its body is inlined
+PRIMITIVES = frozenset('''add sub sign_extend to_signed to_unsigned lower_chunk add_with_carry signed_sat_q unsigned_sat_q signed_sat
+unsigned_sat sat_q sat align lowest_set_bit_ref substring bit_not set_substring bit_at set_bit_at chain bit_count
+big_endian_reverse is_ones decode_imm_shift decode_reg_shift lsl_c lsl lsr_c lsr asr_c asr ror_c ror rrx_c rrx shift_c shift
+arm_expand_imm_c arm_expand_imm thumb_expand_imm_c thumb_expand_imm'''.split())
+HELPER_MODULES = ('armulator.armv6.bits_ops', 'armulator.armv6.shift')
 
 
 def T(*a):
@@ -310,15 +317,31 @@ class Walker:
                 self.assign(s.target, el, env, s)
                 self.block(s.body, env)
             return
+        comp = None
+        if it[0] == 'comp' and isinstance(s.target, ast.Name):
+            # for v in [f(i) for i in range(n)]  ==  for i in range(n): v = f(i)
+            comp, it, var2 = it, it[3], s.target.id
+            var = '#' + it_name(comp)
+        elif it[0] == 'builtin' and it[1] == 'enumerate' and len(it[2]) == 1 and it[2][0][0] == 'comp' and \
+                isinstance(s.target, ast.Tuple) and len(s.target.elts) == 2 and all(isinstance(x, ast.Name) for x in s.target.elts) and \
+                it[2][0][3][0] == 'builtin' and it[2][0][3][1] == 'range' and len(it[2][0][3][2]) == 1:
+            # for i, v in enumerate([f(j) for j in range(n)])  ==  for i in range(n): v = f(i)
+            comp, it = it[2][0], it[2][0][3]
+            var, var2 = s.target.elts[0].id, s.target.elts[1].id
         lid = self.fresh()
-        var = s.target.id if isinstance(s.target, ast.Name) else ast.unparse(s.target)
+        if comp is None:
+            var = s.target.id if isinstance(s.target, ast.Name) else ast.unparse(s.target)
         carried = self.assigned_names(s.body) - {var}
+        if comp is not None:
+            carried -= {var2}
         desc = ('for', lid, var, it)
         inits = {}
         for k in carried:
             inits[k] = env.get(k, ('undef',))
             env[k] = ('loopcarried', k, lid, inits[k])
         env[var] = ('loopvar', var, lid, it)
+        if comp is not None:
+            env[var2] = subst(comp[1], comp[2], env[var])
         l0 = self.loops
         self.loops = l0 + (desc,)
         self.emit('LoopEnter', s, loop=desc, carried=sorted(carried))
@@ -399,7 +422,10 @@ class Walker:
         if isinstance(target, ast.Attribute):
             path = self.attr_path(target, env)
             if path is None:
-                raise AnalysisError('store to unresolved attribute `%s` in %s' % (ast.unparse(target), self.fi.qualname))
+                # a store through an expression the walker cannot name (an element of a scratch tuple, a call result ...):
+                # an effect on an unknown object - frame rules see it as an ObjStore they do not allow
+                self.emit('ObjStore', node, root='?' + ast.unparse(target.value)[:60], attr=target.attr, value=v)
+                return
             root, chain = path
             if root == 'proc':
                 self.store_proc(chain, v, node)
@@ -548,16 +574,62 @@ class Walker:
             idx = self.expr(e.slice, env)
             if idx[0] == 'const' and isinstance(idx[1], int):
                 return self.project(base, idx[1])
+            if base[0] == 'comp':
+                return subst(base[1], base[2], idx)
             return ('index', base, idx)
         if isinstance(e, ast.JoinedStr):
             return ('str',)
         if isinstance(e, ast.Dict):
             return ('dict', [(self.expr(k, env), self.expr(v, env)) for k, v in zip(e.keys, e.values)])
-        if isinstance(e, ast.ListComp):
+        if isinstance(e, (ast.ListComp, ast.GeneratorExp, ast.SetComp)):
+            return self.comprehension(e, env)
+        if isinstance(e, ast.DictComp):
             return ('listcomp', norm_stmt(e, 80))
         if isinstance(e, ast.Lambda):
             return ('lambda', norm_stmt(e, 80))
         raise AnalysisError('expression kind %s outside the walker idiom in %s' % (type(e).__name__, self.fi.qualname))
+
+    def comprehension(self, e, env):
+        """[elt for v in <small constant iteration>] is the tuple of its elements; over a symbolic range with a pure element
+        it is ('comp', element term, bound variable, iteration) - for-loops and subscripts look through it; else opaque."""
+        opaque = ('listcomp', norm_stmt(e, 80))
+        if len(e.generators) != 1:
+            return opaque
+        g = e.generators[0]
+        if g.ifs or g.is_async or not isinstance(g.target, (ast.Name, ast.Tuple)):
+            return opaque
+        it = self.expr(g.iter, env)
+        elems = self.loop_elements(it)
+        if elems is not None:
+            out = []
+            inner = dict(env)
+            for el in elems:
+                self.assign_quiet(g.target, el, inner)
+                out.append(self.expr(e.elt, inner))
+            return ('tuple', out)
+        if not isinstance(g.target, ast.Name):
+            return opaque
+        cv = ('compvar', g.target.id, self.fresh())
+        inner = dict(env)
+        inner[g.target.id] = cv
+        mark = len(self.tr.events)
+        try:
+            t = self.expr(e.elt, inner)
+        except AnalysisError:
+            del self.tr.events[mark:]
+            return opaque
+        if len(self.tr.events) != mark:
+            # the element reads or writes machine state: not a value the walker can move around
+            del self.tr.events[mark:]
+            return opaque
+        return ('comp', t, cv, it)
+
+    def assign_quiet(self, target, v, env):
+        if isinstance(target, ast.Name):
+            env[target.id] = v
+        else:
+            for k, t in enumerate(target.elts):
+                self.assign_quiet(t, self.project(v, k), env)
 
     def attr_read(self, e, env):
         p = self.attr_path(e, env)
@@ -641,7 +713,18 @@ class Walker:
                 txt = args[0][1] if args and args[0][0] == 'const' else None
                 self.emit('Unpredictable' if txt == 'unpredictable' else 'Print', node, text=txt)
                 return const(None)
-            if f.id in ('int', 'bool', 'abs', 'len', 'range', 'min', 'max', 'isinstance', 'hasattr', 'bin',
+            if f.id in ('sum', 'any', 'all') and len(args) == 1 and args[0][0] == 'tuple' and f.id not in env:
+                # over a handful of known elements these are the unrolled expression
+                el = list(args[0][1])
+                if f.id == 'sum':
+                    if not el:
+                        return const(0)
+                    t = el[0]
+                    for x in el[1:]:
+                        t = ('op', 'Add', t, x)
+                    return t
+                return ('or' if f.id == 'any' else 'and', el) if el else const(f.id == 'all')
+            if f.id in ('int', 'bool', 'abs', 'len', 'range', 'min', 'max', 'isinstance', 'hasattr', 'bin', 'any', 'all',
                         'reversed', 'list', 'tuple', 'sum', 'repr', 'str', 'sorted', 'enumerate', 'zip'):
                 return ('builtin', f.id, tuple(args))
             r = self.repo.resolve_name(self.fi.module, f.id)
@@ -669,6 +752,8 @@ class Walker:
                         full.append(('default',))
                     full[i] = v
         t = ('call', fi.name, tuple(full))
+        if fi.module.name in HELPER_MODULES and fi.name not in PRIMITIVES and self.depth < 3 and not any(a == ('default',) for a in full):
+            return self.inline(fi, full, {}, node)
         if not fi.module.name.startswith(PURE_MODULES):
             if fi.module.name.startswith(OPCODE_PKG) and self.depth < 3 and not any(a == ('default',) for a in full):
                 # private helper of an opcode module: its effects are the caller's effects
@@ -791,6 +876,21 @@ class Walker:
         if self.effects is None:
             return None
         return self.effects.summary_for_path(recv, method)
+
+
+def it_name(comp):
+    return '%s%d' % (comp[2][1], comp[2][2])
+
+
+def subst(t, old, new):
+    """t with every occurrence of the term `old` replaced by `new`."""
+    if t == old:
+        return new
+    if isinstance(t, tuple):
+        return tuple(subst(x, old, new) for x in t)
+    if isinstance(t, list):
+        return [subst(x, old, new) for x in t]
+    return t
 
 
 # ---------------------------------------------------------------------------
